@@ -52,7 +52,9 @@ class CostFunction(FileIOMixin, object):
     _COV_MAT_CHOLESKY_NAME = "total_cov_mat_cholesky"
     _COV_MAT_QR_NAME = "total_cov_mat_qr"
     _COV_MAT_NAME = "total_cov_mat"
+    _COV_MAT_LOG_DETERMINANT_NAME = "total_cov_mat_log_determinant"
     _ERROR_NAME = "total_error"
+    _ERROR_SQUARED_LOG_SUM_NAME = "total_error_squared_log_sum"
 
     def __init__(self, cost_function, arg_names=None, add_constraint_cost=True, add_determinant_cost=False, fast_math=False):
         """
@@ -104,9 +106,9 @@ class CostFunction(FileIOMixin, object):
         self._add_determinant_cost = add_determinant_cost
         if self._add_determinant_cost:
             if self.pointwise:
-                self._arg_names += ["total_error_squared_log_sum"]
+                self._arg_names += [self._ERROR_SQUARED_LOG_SUM_NAME]
             else:
-                self._arg_names += ["total_cov_mat_log_determinant"]
+                self._arg_names += [self._COV_MAT_LOG_DETERMINANT_NAME]
             self._arg_count += 1
         self._fast_math = fast_math
 
